@@ -301,7 +301,7 @@ def rule_v3(chk: Check) -> None:
                 if not ok:
                     chk.finding("V3", fi.key, f"reject-status:{kind}", f"the {kind} exit answers {norm(c.args[0])} = {v} instead of {want}", n.where())
                 chk.ob("V3", f"{fi.key}: {kind} -> {want}", ok, norm(c.args[0]))
-    chk.floor("V3", "59 reject exits", n59, 4)
+    chk.floor("V3", "59 reject exits", n59, 1)
     # uploads-disabled test precedes the Titan parser
     ht = ci.methods.get("_handle_titan_url")
     if ht is not None:
@@ -351,8 +351,9 @@ def _reject_kind(g, n) -> str | None:
     return None
 
 
-def _threshold(proj, mi, cmp: ast.Compare):
-    """Smallest ``len`` rejected by ``len(...) [+ k] > LIMIT [- c]`` (or >=)."""
+def _threshold(proj, mi, cmp: ast.Compare, fn: ast.AST | None = None):
+    """Smallest ``len`` rejected by ``len(...) [+ k] > LIMIT [- c]`` (or >=);
+    a local that was assigned ``len(...)`` counts as that call."""
     if len(cmp.ops) != 1:
         return None
     left, op, right = cmp.left, cmp.ops[0], cmp.comparators[0]
@@ -360,6 +361,10 @@ def _threshold(proj, mi, cmp: ast.Compare):
     if isinstance(left, ast.BinOp) and isinstance(left.op, (ast.Add, ast.Sub)) and isinstance(left.right, ast.Constant):
         k = left.right.value if isinstance(left.op, ast.Add) else -left.right.value
         left = left.left
+    if isinstance(left, ast.Name) and fn is not None:
+        defs_ = [st.value for st in walk(fn) if isinstance(st, ast.Assign) and dotted(st.targets[0]) == left.id]
+        if len(defs_) == 1:
+            left = defs_[0]
     if not (isinstance(left, ast.Call) and dotted(left.func) == "len"):
         return None
     lim = proj.eval_const(mi, right)
@@ -388,7 +393,7 @@ def rule_v4(chk: Check) -> None:
                 sites.append((fi, n))
     chk.floor("V4", "length comparisons", len(sites), 1)
     for fi, cmp in sites:
-        t = _threshold(chk.proj, fi.module, cmp)
+        t = _threshold(chk.proj, fi.module, cmp, fi.node)
         txt = norm(cmp)
         whole_buffer = "self.buffer" in txt
         if t is None:
